@@ -79,6 +79,19 @@ def stepRe (l : LocalWaker) (op : Op) : LocalWaker × List Obs :=
   | .woke w => ((runObs (step l op).1 (callback w)).1, .woke w :: (runObs (step l op).1 (callback w)).2)
   | o => ((step l op).1, [o])
 
+/-- **Wakers whose drop wakes**: waker `6` of the stand-alone histories is the last owner of something
+whose destructor calls `wake()` on the same `LocalWaker` (a parked task that, dropped, releases what it
+holds).  It is dropped un-woken when a later `register` displaces it.  `register` is
+`self.waker.replace(Some(new))`: the new waker is stored **before** the displaced one is dropped, so the
+wake made by that drop reaches the new waker — a `register` that displaces waker `6` is the `register`
+followed by a `wake` (with the callback of the waker that wake wakes). -/
+def stepLine (l : LocalWaker) (op : Op) : LocalWaker × List Obs :=
+  match op with
+  | .register _ =>
+    if l.waker = some 6 then ((stepRe (step l op).1 .wake).1, (step l op).2 :: (stepRe (step l op).1 .wake).2)
+    else stepRe l op
+  | _ => stepRe l op
+
 /-- kernel-free reference: a waker is outstanding iff the last operation was a `register` -/
 def outstanding (ops : List Op) : Option WakerId :=
   match ops.getLast? with
@@ -116,7 +129,7 @@ def Counter.available (c : Counter) (w : WakerId) : Counter × Bool :=
 /-- Waker ids `≥ 4` are **inline-polling** wakers: `Waker::wake` polls the woken task on the spot,
 i.e. it re-enters the counter from inside `task.wake()` — reads `total()` and asks `available(cx)`
 with its own waker (a synchronous executor, a `FuturesUnordered`-style waker).  Ids `0..3` only count. -/
-def inlineWaker (w : WakerId) : Bool := decide (4 ≤ w)
+def inlineWaker (w : WakerId) : Bool := decide (4 ≤ w ∧ w < 100)
 
 /-- A guard drop as the woken task experiences it: `dec`, and — if the waker it wakes polls inline —
 that task's `total()` and `available(cx)`.  The property says the task is woken *when the drop has
@@ -196,7 +209,7 @@ def step (s : Sys) : Op → Option (Sys × Obs)
 /-- ids `≥ 6`: inline-polling wakers whose task, told from inside `wake()` that a slot is free, **takes
 it** on the spot (`get()`), after which the next task in line asks `available` with its own (counting)
 waker `w - 4` — all before `wake()`, and the guard drop that called it, return. -/
-def takerWaker (w : WakerId) : Bool := decide (6 ≤ w)
+def takerWaker (w : WakerId) : Bool := decide (6 ≤ w ∧ w < 100)
 
 /-- `get()` / `available(cx)` through a handle that is not in the table (the woken task's own clone) -/
 def Sys.acquireCore (s : Sys) : Sys × Obs :=
@@ -220,6 +233,38 @@ def stepRe (s : Sys) (op : Op) : Option (Sys × List Obs) :=
   match step s op with
   | none => none
   | some (s', o) => some ((s'.callback o).1, o :: (s'.callback o).2)
+
+/-- Waker ids `≥ 100`: waker `100 + g` is the last owner of a parked task that **holds guard `g`**: if it
+is dropped un-woken — displaced by the next task that is answered "unavailable" — the task goes and its
+guard is released.  While it is registered the guard belongs to the task (`held`).  Woken, the task
+lives on and the guard is an ordinary guard again. -/
+def guardWaker (w : WakerId) : Bool := decide (100 ≤ w)
+
+def Sys.held (s : Sys) (g : Nat) : Bool := s.ctr.task.waker == some (100 + g)
+
+/-- One line of the protocol.  `available` that answers "unavailable" runs `task.register(new)` =
+`replace(Some(new))`: the new waker is stored first, then the displaced one is dropped; if that was a
+guard-owning waker its guard is released *then* — an ordinary guard drop on the state in which the new
+waker is registered (so if it frees a slot, the task just answered "unavailable" is the one woken). -/
+def stepLine (s : Sys) (op : Op) : Option (Sys × List Obs) :=
+  match op with
+  | .drop g => if s.held g then none else stepRe s op
+  | .debugGuard g => if s.held g then none else stepRe s op
+  | .available _ w =>
+    if guardWaker w && (!s.guards.contains (w - 100) || s.held (w - 100)) then none
+    else
+      match stepRe s op with
+      | none => none
+      | some (s1, os) =>
+        match s.ctr.task.waker, os with
+        | some d, [.avail false] =>
+          if guardWaker d then
+            match stepRe s1 (.drop (d - 100)) with
+            | none => none
+            | some (s2, os2) => some (s2, os ++ os2)
+          else some (s1, os)
+        | _, _ => some (s1, os)
+  | _ => stepRe s op
 
 /-- a history of applicable operations with the observations it produced -/
 def run (s : Sys) : List Op → Option (Sys × List Obs)
